@@ -571,3 +571,200 @@ Theorem simple_ignores_mo b k a rt mo hw cols :
   pre_values (mkfcase m mo hw cols) = pre_values (mkfcase m Raw hw cols) /\
   forall roots, post (mkfcase m mo hw cols) roots = mo_avg mo roots.
 Proof. split; reflexivity. Qed.
+
+(* ---------------------------------------------------------------- values returned *)
+
+(* v is the value of the metric on case c: the implementation's per-output results are the
+   non-negative roots of the pre-root quantities, aggregated over outputs by `post` *)
+Definition roots_of (deg : Z) (roots pre : list Q) : Prop :=
+  Forall2 (fun s x => 0 <= s /\ s ^ deg == x) roots pre.
+Definition is_value (c : fcase) (v : list Q) : Prop :=
+  exists roots, roots_of (root_deg c) roots (pre_values c) /\ eql v (post c roots).
+
+Lemma roots_nonneg deg r pre : roots_of deg r pre -> all_nonneg r.
+Proof. induction 1; constructor; [destruct H; assumption | assumption]. Qed.
+Lemma roots_unique deg r r' pre pre' : (0 < deg)%Z -> eql pre pre' ->
+  roots_of deg r pre -> roots_of deg r' pre' -> eql r r'.
+Proof.
+  intros Hd He Hr; revert r' pre' He. destruct deg as [|n|n]; try lia.
+  induction Hr as [|s x r pre [Hs Hx] Hr IH]; intros r' pre' He Hr'.
+  - inversion He; subst. inversion Hr'; subst. constructor.
+  - inversion He as [|? x' ? pre2 Exx He2]; subst. inversion Hr' as [|s' ? r2 ? [Hs' Hx'] Hr2]; subst.
+    constructor; [|apply (IH r2 pre2); assumption].
+    apply (root_unique n); try assumption. rewrite Hx, Hx', Exx. reflexivity.
+Qed.
+Lemma roots_compat deg r pre pre' : eql pre pre' -> roots_of deg r pre -> roots_of deg r pre'.
+Proof.
+  intros He Hr; revert pre' He. induction Hr as [|s x r pre [Hs Hx] Hr IH]; intros pre' He;
+    inversion He; subst; constructor; [|apply IH; assumption].
+  split; [assumption|]. rewrite Hx. assumption.
+Qed.
+Lemma roots_deg1 pre : all_nonneg pre -> roots_of 1 pre pre.
+Proof. induction 1; constructor; [split; [assumption | apply Qpower_1_r] | assumption]. Qed.
+Lemma post_eql c r r' : eql r r' -> eql (post c r) (post c r').
+Proof. intro H. unfold post. destruct (fam (f_m c)); [apply mo_avg_eql|..]; assumption. Qed.
+
+(* the value is determined by the model *)
+Theorem value_unique c v v' : (0 < root_deg c)%Z -> is_value c v -> is_value c v' -> eql v v'.
+Proof.
+  intros Hd [r [Hr Hv]] [r' [Hr' Hv']].
+  pose proof (roots_unique _ _ _ _ _ Hd (eql_refl _) Hr Hr') as E.
+  eapply eql_trans; [exact Hv|]. eapply eql_trans; [apply post_eql; exact E|].
+  apply eql_sym. exact Hv'.
+Qed.
+(* without a root the value is just the rational formula *)
+Theorem value_unrooted c : wf c -> root_deg c = 1%Z -> is_value c (post c (pre_values c)).
+Proof.
+  intros Hw Hd. exists (pre_values c). split; [|apply eql_refl].
+  rewrite Hd. apply roots_deg1. apply pre_values_nonneg. assumption.
+Qed.
+
+Theorem value_nonneg c v : wf c -> is_value c v -> all_nonneg v.
+Proof.
+  intros Hw [r [Hr Hv]]. apply (all_nonneg_compat (post c r)); [apply eql_sym; assumption|].
+  apply post_nonneg; [assumption | eapply roots_nonneg; eassumption].
+Qed.
+
+Lemma root_deg_simple c : fam_agg (fam (f_m c)) <> GMean -> root_deg c = 1%Z \/ root_deg c = 2%Z.
+Proof.
+  unfold root_deg. intro H. destruct (fam (f_m c)) as [b k a|k a sp|k a]; simpl in H;
+    try destruct a; try congruence; destruct (rooted (f_m c)); auto.
+Qed.
+
+Theorem value_zero_at_perfect c v : Forall perfect (f_cols c) -> fam_agg (fam (f_m c)) <> GMean ->
+  is_value c v -> Forall (fun x => x == 0) v.
+Proof.
+  intros Hp Hg [r [Hr Hv]]. pose proof (pre_values_perfect c Hp Hg) as Z.
+  assert (Forall (fun x => x == 0) r) as Zr.
+  { destruct (root_deg_simple c Hg) as [E|E]; rewrite E in Hr; clear - Hr Z;
+      induction Hr as [|s x r pre [Hs Hx] Hr IH]; inversion Z; subst; constructor; auto.
+    - rewrite Qpower_1_r in Hx. rewrite Hx. assumption.
+    - apply (root_zero 2). rewrite Hx. assumption. }
+  pose proof (post_zero c r Zr) as Zp. clear - Hv Zp.
+  induction Hv; inversion Zp; subst; constructor; auto. rewrite H. assumption.
+Qed.
+
+(* geometric means at a perfect forecast: every per-output value is the EPS floor (its square is,
+   when the square root is requested) *)
+Theorem gmean_value_floor b k rt mo hw cols n r :
+  Forall perfect cols -> Forall (shaped n) cols -> (forall w, hw = Some w -> length w = n) ->
+  (0 < gm_deg (gm_weights hw n))%Z -> cols <> [] ->
+  let c := mkfcase (mkmetric (FSimple b k GMean) rt) mo hw cols in
+  roots_of (root_deg c) r (pre_values c) ->
+  Forall (fun s => (if rt then s * s else s) == EPS) r.
+Proof.
+  intros Hp Hs Hw Hd Hne c Hr.
+  pose proof (gmean_perfect_floor b k rt mo hw cols n Hp Hs Hw) as F. fold c in F.
+  assert (horizon c = n) as Hh.
+  { unfold horizon, c. simpl. destruct cols as [|cl cols]; [congruence|].
+    inversion Hs; subst. destruct H1 as [L _]. exact L. }
+  unfold root_deg in Hr. rewrite Hh in Hr. simpl in Hr.
+  remember (gm_deg (gm_weights hw n)) as K0 eqn:EK.
+  destruct K0 as [|K|K]; try lia.
+  cbv zeta in F. revert Hr F. generalize (pre_values c). clear. intros pre Hr F.
+  induction Hr as [|s x r pre [Hs Hx] Hr IH]; inversion F; subst; constructor; auto.
+  destruct rt.
+  - apply (root_unique K); [nra | apply Qlt_le_weak; apply EPS_pos|].
+    rewrite <- H1, <- Hx. change (s * s) with (s ^ 2) at 1. rewrite <- Qpower_mult. reflexivity.
+  - apply (root_unique K); [assumption | apply Qlt_le_weak; apply EPS_pos|].
+    rewrite <- H1, <- Hx. rewrite Z.mul_1_l. reflexivity.
+Qed.
+
+(* transport of values along pointwise-equal pre-root quantities *)
+Lemma value_transfer c c' v : root_deg c = root_deg c' -> (forall r, post c r = post c' r) ->
+  eql (pre_values c) (pre_values c') -> is_value c v -> is_value c' v.
+Proof.
+  intros Hd Hp He [r [Hr Hv]]. exists r. rewrite <- Hd, <- Hp. split; [|assumption].
+  eapply roots_compat; eassumption.
+Qed.
+
+Theorem pct_symmetric_value k a rt mo hw cols v : a <> GMean ->
+  let m := mkmetric (FSimple (BPct true) k a) rt in
+  is_value (mkfcase m mo hw (map swap_col cols)) v <-> is_value (mkfcase m mo hw cols) v.
+Proof.
+  intros Ha m.
+  assert (forall cs cs', root_deg (mkfcase m mo hw cs) = root_deg (mkfcase m mo hw cs')) as Hd.
+  { intros. unfold root_deg. simpl. destruct a; congruence. }
+  split; apply value_transfer; try apply Hd; try reflexivity.
+  - apply pct_symmetric_swap. assumption.
+  - apply eql_sym. apply pct_symmetric_swap. assumption.
+Qed.
+
+Theorem pct_symmetric_value_range k a rt mo hw cols v : a <> GMean -> hw_ok hw -> mo_ok mo ->
+  let m := mkmetric (FSimple (BPct true) (P0 k) a) rt in
+  is_value (mkfcase m mo hw cols) v ->
+  Forall (fun x => 0 <= x <= (if rt then 2 else match k with PAbs => 2 | PSq => 4 end)) v.
+Proof.
+  intros Ha Hw Hm m [r [Hr Hv]].
+  set (hi := if rt then 2 else match k with PAbs => 2 | PSq => 4 end).
+  assert (0 <= hi) as Hh by (unfold hi; destruct rt, k; lra).
+  assert (Forall (fun x => 0 <= x <= hi) r) as R.
+  { assert (Forall (fun x => 0 <= x <= match k with PAbs => 2 | PSq => 4 end)
+                   (pre_values (mkfcase m mo hw cols))) as P.
+    { destruct k; [|apply pct_symmetric_sq_range; assumption].
+      pose proof (pct_symmetric_abs_range a mo hw cols Ha Hw) as P0.
+      unfold m. unfold pre_values in *. simpl in *. exact P0. }
+    unfold root_deg in Hr. simpl in Hr.
+    assert ((if rt then 2 else 1) * match a with GMean => gm_deg (gm_weights hw (horizon (mkfcase m mo hw cols))) | _ => 1 end
+            = if rt then 2 else 1)%Z as Ed by (destruct a, rt; try congruence; reflexivity).
+    rewrite Ed in Hr. clear Ed.
+    clear Hv. revert Hr P. generalize (pre_values (mkfcase m mo hw cols)). intros pre0 Hr P.
+    induction Hr as [|s x r pre [Hs Hx] Hr IH]; [constructor|].
+    inversion P as [|? ? Px Pt]; subst. constructor; [|apply IH; exact Pt].
+    unfold hi. destruct rt.
+    - split; [assumption|]. apply (sqrt_le_2 s x); [assumption | assumption|].
+      destruct k; lra.
+    - rewrite Qpower_1_r in Hx. rewrite Hx. assumption. }
+  pose proof (post_range hi (mkfcase m mo hw cols) r Hh Hm R) as PR. clear - Hv PR.
+  induction Hv; inversion PR; subst; constructor; auto. rewrite H. assumption.
+Qed.
+
+Theorem scaled_value_invariant k a sp rt mo hw cols c v : 0 < c ->
+  let m := mkmetric (FScaled k a sp) rt in
+  Forall (fun d => EPS <= d) (scaled_den k a sp mo cols) ->
+  Forall (fun d => EPS <= d) (scaled_den k a sp mo (map (scale_col c) cols)) ->
+  (is_value (mkfcase m mo hw (map (scale_col c) cols)) v <-> is_value (mkfcase m mo hw cols) v).
+Proof.
+  intros Hc m H1 H2.
+  split; apply value_transfer; try reflexivity.
+  - apply scaled_scale_invariant; assumption.
+  - apply eql_sym. apply scaled_scale_invariant; assumption.
+Qed.
+
+(* horizon weights only matter up to a common positive factor *)
+Theorem horizon_weights_scale_free m mo w cols c : 0 < c -> fam_agg (fam m) <> GMean ->
+  eql (pre_values (mkfcase m mo (Some (map (Qmult c) w)) cols))
+      (pre_values (mkfcase m mo (Some w) cols)).
+Proof.
+  intros Hc Hg. unfold pre_values. simpl. destruct (fam m) as [b k a|k a sp|k a]; simpl in Hg.
+  - induction cols as [|cl cols IH]; simpl; constructor; [|assumption].
+    unfold col_agg. destruct a; try congruence; apply agg_weights_scale_free; assumption.
+  - assert (eql (map (fun cl => agg a (Some (map (Qmult c) w)) (pt BPlain (P0 k) cl)) cols)
+                (map (fun cl => agg a (Some w) (pt BPlain (P0 k) cl)) cols)) as E.
+    { induction cols as [|cl cols IH]; simpl; constructor; [|assumption].
+      apply agg_weights_scale_free; assumption. }
+    apply mo_avg_eql with (mo := mo) in E. revert E.
+    generalize (mo_avg mo (map (fun cl => agg a (Some (map (Qmult c) w)) (pt BPlain (P0 k) cl)) cols)).
+    generalize (mo_avg mo (map (fun cl => agg a (Some w) (pt BPlain (P0 k) cl)) cols)).
+    generalize (mo_avg mo (map (fun cl => agg a None (naive_errs k sp (c_train cl))) cols)).
+    intros den n1 n2 E. unfold ratio, map2. revert den.
+    induction E as [|x y l l' Hx E IH]; intros [|d den]; simpl; constructor; [|apply IH].
+    rewrite Hx. reflexivity.
+  - set (f1 := fun cl => agg a (Some (map (Qmult c) w)) (pt BPlain (P0 k) cl)).
+    set (f2 := fun cl => agg a (Some w) (pt BPlain (P0 k) cl)).
+    set (g1 := fun cl => agg a (Some (map (Qmult c) w))
+                          (pt BPlain (P0 k) (mkcol (c_true cl) (c_bench cl) [] []))).
+    set (g2 := fun cl => agg a (Some w) (pt BPlain (P0 k) (mkcol (c_true cl) (c_bench cl) [] []))).
+    assert (eql (mo_avg mo (map f1 cols)) (mo_avg mo (map f2 cols))) as E1.
+    { apply mo_avg_eql. induction cols as [|cl cols IH]; simpl; constructor; [|assumption].
+      apply agg_weights_scale_free; assumption. }
+    assert (eql (mo_avg mo (map g1 cols)) (mo_avg mo (map g2 cols))) as E2.
+    { apply mo_avg_eql. induction cols as [|cl cols IH]; simpl; constructor; [|assumption].
+      apply agg_weights_scale_free; assumption. }
+    revert E1 E2. generalize (mo_avg mo (map f1 cols)) (mo_avg mo (map f2 cols))
+      (mo_avg mo (map g1 cols)) (mo_avg mo (map g2 cols)).
+    intros n1 n2 d1 d2 E1. unfold ratio, map2. revert d1 d2.
+    induction E1 as [|x y l l' Hx E1 IH]; intros d1 d2 E2; inversion E2; subst; simpl;
+      constructor; [|apply IH; assumption].
+    rewrite Hx. rewrite (qmax_compat x0 y0 EPS EPS H (Qeq_refl EPS)). reflexivity.
+Qed.
